@@ -1,4 +1,5 @@
 import Restli.Lib.Basic
+import Restli.Lib.Sort
 import Restli.Gen.Tables
 /-! # Model of `fnv1a/hasher.go` (v2 and root module: the two files are identical)
 
@@ -93,7 +94,7 @@ def kvHash {α} (P : Params) (hasher : Hash → α → Hash) (kv : Bytes × α) 
   hasher (addString P zeroHash kv.1) kv.2
 
 /-- `sort.Slice(kvHashes, <)` -/
-def sortHashes (l : List Hash) : List Hash := l.mergeSort (fun a b => decide (a ≤ b))
+def sortHashes (l : List Hash) : List Hash := isort (fun a b => decide (a ≤ b)) l
 
 /-- `AddMap(h, elements, hasher)` -/
 def addMap {α} (P : Params) (hasher : Hash → α → Hash) (h : Hash) (elements : List (Bytes × α)) : Hash :=
